@@ -105,3 +105,5 @@ pub mod sync_digraph;
 pub mod sync_ungraph;
 pub mod ungraph;
 pub mod error;
+#[cfg(gdsl_verif)]
+pub mod verif_hooks;
